@@ -314,7 +314,11 @@ def run_check(prop, tier, seed):
         drift = []
         conf_info = []
         for c in (prop.conformance(tier, seed) if hasattr(prop, "conformance") else []):
-            info = c["run"](ctx, tier, seed) if "run" in c else run_conformance(c, ctx, seed)
+            try:
+                info = c["run"](ctx, tier, seed) if "run" in c else run_conformance(c, ctx, seed)
+            except Exception as ex:          # noqa: a binding that cannot be evaluated is drift of the binding, never a verdict
+                info = {"name": c.get("name", "?"), "validated": 0, "states": 0, "wall_s": 0,
+                        "drift": ["the conformance binding could not be evaluated: %s" % str(ex)[:300]]}
             conf_info.append(info)
             states += info.get("states", 0)
             transitions += info.get("states", 0)
